@@ -108,6 +108,12 @@ public:
     size_t i = Support::ctz(_bit_word);
 
     *range_start = _idx + i;
+
+    // The last BitWord can have bits past `_end` - a range that starts there is not part of the iterated region.
+    if (*range_start >= _end) {
+      return false;
+    }
+
     _bit_word = ~(_bit_word ^ ~(Support::bit_ones<T> << i));
 
     if (_bit_word == 0) {
